@@ -99,17 +99,21 @@ func ruleFilterOps(r *Report) {
 	}
 	// WithUnion
 	if fn := r.Anchor("(*column.Txn).WithUnion"); fn != nil {
-		var orOK, andOK, zeroed bool
-		var orIns, andIns, zeroIns ssa.Instruction
-		var scratch ssa.Value
-		for _, f := range deepFuncs(fn) {
-			allInstrs(f, func(ins ssa.Instruction) {
+		// zero ≺ or ≺ and, all in the same per-block body (the function itself or the callback it hands
+		// to rangeRead); each may sit in a helper called from that body
+		ok := false
+		withClosures(fn, func(body *ssa.Function) {
+			var orSite, andSite, zeroSite ssa.Instruction
+			var scratch ssa.Value
+			var andCall *ssa.CallCommon
+			var andEnv *venv
+			deepVisitE(body, func(ins, site ssa.Instruction, env *venv) {
 				cc, _, _ := callCommon(ins)
 				if cc == nil {
-					if st, ok := ins.(*ssa.Store); ok {
-						if ia, ok := st.Addr.(*ssa.IndexAddr); ok && isBitmap(ia.X.Type()) {
-							if c, ok := constInt(st.Val); ok && c == 0 && reachAvoiding(ins.Block(), ins.Block(), nil, nil) {
-								zeroed, zeroIns = true, ins
+					if st, isSt := ins.(*ssa.Store); isSt {
+						if ia, isIA := st.Addr.(*ssa.IndexAddr); isIA && isBitmap(ia.X.Type()) {
+							if c, isC := constInt(st.Val); isC && c == 0 && reachAvoiding(ins.Block(), ins.Block(), nil, nil) {
+								zeroSite = site
 							}
 						}
 					}
@@ -117,25 +121,31 @@ func ruleFilterOps(r *Report) {
 				}
 				if methodOn(cc, "github.com/kelindar/bitmap", "Bitmap", "Or") {
 					// tmp |= col.Index(chunk)
-					if c, ok := norm(cc.Args[1]).(*ssa.Call); ok && calleeIs(&c.Call, "(*column.column).Index") {
-						orOK, orIns = true, ins
-						scratch = bitmapRecv(cc.Args[0])
+					if c, isC := norm(cc.Args[1]).(*ssa.Call); isC && calleeIs(&c.Call, "(*column.column).Index") {
+						orSite = site
+						scratch, _ = normE(bitmapRecv(cc.Args[0]), env, false)
 					}
 				}
 				if methodOn(cc, "github.com/kelindar/bitmap", "Bitmap", "And") {
-					if c, ok := norm(bitmapRecv(cc.Args[0])).(*ssa.Call); ok && calleeIs(&c.Call, "(commit.Chunk).OfBitmap") {
-						if fr, ok := loadedField(c.Call.Args[1]); ok && fr.Struct == "column.Txn" && fr.Field == "index" {
-							andOK, andIns = true, ins
+					rv, _ := normE(bitmapRecv(cc.Args[0]), env, false)
+					if c, isC := rv.(*ssa.Call); isC && calleeIs(&c.Call, "(commit.Chunk).OfBitmap") {
+						if fr, isF := loadedField(c.Call.Args[1]); isF && fr.Struct == "column.Txn" && fr.Field == "index" {
+							andSite, andCall, andEnv = site, cc, env
 						}
 					}
 				}
 			})
-		}
-		ok := orOK && andOK && zeroed && orIns.Parent() == andIns.Parent() && zeroIns.Parent() == orIns.Parent() && canReach(orIns, andIns) && canReach(zeroIns, orIns)
-		if ok {
-			acc, _, _ := callCommon(andIns)
-			ok = len(acc.Args) >= 2 && scratch != nil && (sameExpr(acc.Args[1], scratch) || isLoadOf(acc.Args[1], scratch))
-		}
+			if orSite == nil || andSite == nil || zeroSite == nil || scratch == nil {
+				return
+			}
+			if !(canReach(orSite, andSite) && canReach(zeroSite, orSite)) || len(andCall.Args) < 2 {
+				return
+			}
+			arg, _ := normE(andCall.Args[1], andEnv, false)
+			if sameExpr(arg, scratch) || isLoadOf(arg, scratch) || isLoadOf(andCall.Args[1], scratch) {
+				ok = true
+			}
+		})
 		h.Check(ok, "(*column.Txn).WithUnion/op", r.P.Pos(fn.Pos()), "scratch zeroed per block, Or of every column, then selection And scratch", "WithUnion does not compute selection ∧ (c1 ∨ c2 ∨ …) per block with a scratch bitmap that is reset for every block")
 	}
 	// value filters clear on missing / wrong kind
@@ -377,12 +387,9 @@ func rulePresence(r *Report) {
 				if !isCall || c.Call.StaticCallee() != nil || c.Call.IsInvoke() {
 					return
 				}
-				if fv, isFV := c.Call.Value.(*ssa.FreeVar); !isFV || fv.Name() != "predicate" {
-					if ld, isLd := c.Call.Value.(*ssa.UnOp); !isLd {
-						return
-					} else if fv2, isFV2 := ld.X.(*ssa.FreeVar); !isFV2 || fv2.Name() != "predicate" {
-						return
-					}
+				// the call of WithValue's predicate parameter, however it is named or captured
+				if len(fn.Params) < 3 || norm(c.Call.Value) != ssa.Value(fn.Params[2]) {
+					return
 				}
 				pos = ins
 				ok = edgeGuarded(ins.Block(), func(cond ssa.Value) (bool, bool) {
